@@ -179,6 +179,17 @@ register("C10", "other",
          TB + "termination and timing of CPython and OS process state are observed, not proved.",
          "Lean 4 proofs over the exception-flow and child-process models + fault enumeration on the real entry point", "DESIGN.md §4 C10")
 
+register("C13", "other",
+         "Partial. Proved in Lean over the naming model PV.Modules (scope keys, `__name__` folding, label mangling): scope_keys_disjoint — the symbol-table keys of two different library modules never coincide "
+         "whatever the variable and function names are, so equal names never share storage; name_is_not_main_in_library — inside a library `__name__` folds to the module name, so its `__main__` block is dead; "
+         "mangle_injective_partial. The model is tied to the code by comparing its keys with the scope keys the real transpiler uses for the symbols of generated split programs. The behavioural statement is "
+         "explored on the real transpiler: generated programs split over 1-3 library modules (same variable / function names in every module, aliases, `__main__` blocks, uncalled functions, constants "
+         "re-assigned in the `__main__` block) and the single-file program obtained by prefixing library-level names are both compiled under several option vectors and run on the IC10 machine model against "
+         "the same environments — equal effect traces; uncalled functions and `__main__` blocks must contribute no instruction.",
+         TB + "PV.IC10 machine is a trusted specification; both forms are compiled by the same transpiler (common defects cancel); libraries are generated within the supported shape (one register-held "
+         "variable per module, calls from the main top level).",
+         "Lean 4 proof for the naming scheme + differential execution of split vs single-file programs", "DESIGN.md §4 C13")
+
 ALL = [f"C{i:02d}" for i in range(1, 19)]
 
 
